@@ -23,7 +23,7 @@ use zysim_common::{ChildOutcome, Value, json, mix, run_forked, shim};
 
 const ENGINE: u64 = 3;
 const CHILD_TIMEOUT_S: u64 = 120;
-const MAX_STEPS: usize = 3_000_000;
+const MAX_STEPS: usize = 100_000_000;
 
 // ------------------------------------------------------------------ simulator-owned seams
 static CONTENDED: AtomicU64 = AtomicU64::new(0);
